@@ -27,39 +27,60 @@ MIN_OBLIGATIONS = 12
 AN = 'tally.analyzer.'
 RP = 'tally.report.'
 sv = z3.StringVal
-replace_all = UF('str.replace_all', StrS, StrS, StrS, StrS)
+replace_all = UF('py.str.replace', StrS, StrS, StrS, StrS)
 
 
-def h_merchant_ids(ctx):
-    sp = Spec()
-    I = Interp(ctx, sp)
+def _helper():
     fi = find_function(RP + 'write_summary_file_vue')
     mk = [n for n in ast.walk(fi.node) if isinstance(n, ast.FunctionDef) and n.name == 'make_merchant_id']
     if not mk:
         raise Unsupported('make_merchant_id not found')
-    mfi = extract.FunctionInfo(fi.qualname + '.<locals>.make_merchant_id', fi.mod, mk[0])
-    sp.while_bound[mfi.qualname] = 2
-    # the enclosing state the helper closes over, as initialised by the enclosing function (read from its source)
-    env = {}
+    return fi, extract.FunctionInfo(fi.qualname + '.<locals>.make_merchant_id', fi.mod, mk[0])
+
+
+def h_merchant_ids(ctx):
+    """Representation invariant of the state shared by all calls within one report, INV(merchant_ids, used_ids):
+         every recorded id is in used_ids, and different recorded names have different ids.
+       One call from ANY state satisfying INV (arbitrarily many earlier calls): a known name gets its recorded id and nothing changes; a new name
+       gets an id outside used_ids, which is then recorded and added.  So INV is preserved and, by induction over the calls of one report, ids are
+       injective and stable for any number of merchants.  The while loop is cut at its invariant (only the negated guard is needed)."""
+    sp = Spec()
+    I = Interp(ctx, sp)
+    fi, mfi = _helper()
+    SetS = z3.SetSort(StrS)
+    dom0, used0 = ctx.fresh('names_seen', SetS), ctx.fresh('used_ids', SetS)
+    ids0 = ctx.fresh('merchant_ids', z3.ArraySort(StrS, StrS))
+    x, y = ctx.fresh('x', StrS), ctx.fresh('y', StrS)     # two arbitrary names: the invariant is checked pointwise (skolemised forall)
+
+    def INV(dom, ids, used, p, q):
+        return z3.And(z3.Implies(z3.IsMember(p, dom), z3.IsMember(ids[p], used)),
+                      z3.Implies(z3.And(z3.IsMember(p, dom), z3.IsMember(q, dom), p != q), ids[p] != ids[q]))
+    # INV holds for all pairs of names; only the instances at (x, y) and (y, x) are needed, and assuming fewer instances keeps refutations quantifier-free
+    ctx.assume(INV(dom0, ids0, used0, x, y))
+    ctx.assume(INV(dom0, ids0, used0, y, x))
+    # the initial state set up by the enclosing function satisfies INV (both empty): read from its source
+    init = {}
     for st in fi.node.body:
         if isinstance(st, ast.Assign) and len(st.targets) == 1 and isinstance(st.targets[0], ast.Name) and st.targets[0].id in ('merchant_ids', 'used_ids'):
-            v = I.eval_in(st.value, fi, {})
-            if v == {}:
-                v = SymMap(StrS, {None: z3.K(StrS, sv(''))}, dom=z3.EmptySet(StrS))      # an empty dict that will get symbolic (name) keys
-            elif isinstance(v, SymSet) and v.expr is None:
-                v = SymSet(z3.EmptySet(StrS))
-            env[st.targets[0].id] = v
-    a, b = ctx.fresh('name_a', StrS), ctx.fresh('name_b', StrS)
-    fmt_int = UF('fmt_int', IntS, StrS)
-    # fact about the external str(): decimal representations are non-empty and contain no underscore-free ambiguity we rely on: base + "_" + digits != base
-    ctx.assume(z3.Length(fmt_int(z3.IntVal(2))) > 0)
-    ctx.assume(z3.Length(fmt_int(z3.IntVal(3))) > 0)
-    ida = I.call_function(mfi, [a], closure_env=env)
-    idb = I.call_function(mfi, [b], closure_env=env)
-    ida2 = I.call_function(mfi, [a], closure_env=env)
-    ctx.check('C12.merchant_ids_are_injective', z3.Implies(a != b, to_z3(ida, StrS) != to_z3(idb, StrS)), 'property', witness={'a': a, 'b': b})
-    ctx.check('C12.merchant_id_is_stable_for_a_name', to_z3(ida2, StrS) == to_z3(ida, StrS), 'property')
-    ctx.cover('make_merchant_id.three_calls')
+            init[st.targets[0].id] = I.eval_in(st.value, fi, {})
+    ctx.check('C12.merchant_id_state_starts_empty', init.get('merchant_ids') == {} and isinstance(init.get('used_ids'), SymSet) and init['used_ids'].expr is None, 'property')
+    env = {'merchant_ids': SymMap(StrS, {None: ids0}, dom=dom0), 'used_ids': SymSet(used0)}
+    for nd in ast.walk(mfi.node):
+        if isinstance(nd, ast.While):
+            from pyvc.interp import Frame, LoopSpec
+            sp.loops[(mfi.qualname, Frame(mfi, {}).loop_ordinals[id(nd)])] = LoopSpec(
+                lambda I_, e, k, it: {}, {'candidate': lambda c: c.fresh('candidate', StrS), 'n': lambda c: c.fresh('n', IntS)})
+    name = ctx.fresh('name', StrS)
+    r = to_z3(I.call_function(mfi, [name], closure_env=env), StrS)
+    dom1, ids1, used1 = env['merchant_ids'].dom, env['merchant_ids'].fields[None], env['used_ids'].expr
+    known = z3.IsMember(name, dom0)
+    ctx.check('C12.merchant_id_is_stable_for_a_name', z3.Implies(known, z3.And(r == ids0[name], dom1 == dom0, ids1 == ids0, used1 == used0)), 'property')
+    ctx.check('C12.merchant_ids_are_injective.new_id_is_unused', z3.Implies(z3.Not(known), z3.Not(z3.IsMember(r, used0))), 'property')
+    ctx.check('C12.merchant_ids_are_injective.new_id_is_recorded', z3.Implies(z3.Not(known), z3.And(z3.IsMember(name, dom1), ids1[name] == r, z3.IsMember(r, used1))), 'property')
+    ctx.check('C12.merchant_ids_are_injective.nothing_else_changes', z3.Implies(z3.Not(known), z3.And(dom1 == z3.SetAdd(dom0, name), ids1 == z3.Store(ids0, name, r),
+                                                                                                      z3.IsSubset(used0, used1))), 'property')
+    ctx.check('C12.merchant_ids_are_injective.invariant_preserved', INV(dom1, ids1, used1, x, y), 'property')
+    ctx.cover('make_merchant_id.returns')
 
 
 def harnesses(tier):
